@@ -919,8 +919,16 @@ def parseStatement (c : QCfg) (f limit : Nat) (ts : List Tok) : Res Query :=
       | .word _ _ _ => .error .unsupported
       | _ => .error (syn "an SQL statement")
 
-/-- the token classification of the statements loop (`Model/Stmts.lean`) on real tokens -/
+/-- the token classification of the statements loop (`Model/Stmts.lean`) on real tokens, for a
+SCRIPT (`parse_statements` = `parse_statement_list(false)`): since the repair of the END tail-drop the
+top-level loop never stops at the keyword END -/
 def stmtClass : SqlVerif.Stmts.TokClass Tok where
+  isSemi t := t.isSym .SemiColon
+  isEndKw _ := false
+
+/-- the classification inside a block body (`BEGIN <statements> END` of CREATE PROCEDURE,
+`parse_statement_list(true)`): the loop stops in front of END after a complete statement -/
+def blockClass : SqlVerif.Stmts.TokClass Tok where
   isSemi t := t.isSym .SemiColon
   isEndKw t := t.isKw K.END_
 
